@@ -116,7 +116,11 @@ package httpgen
 //@   loop 1 invariant forall k int :: 0 <= k && k < _i1 ==> spec.EnumOK(file.Messages[k])
 
 //@ func (g *Generator) generateNullableEncodingFile(file *protogen.File) (err error)
+//@   modifies *
 //@   ensures err == nil ==> spec.AllOK_nullable(file.Messages)
+//@   at-call writeNullableImports requires once: count("writeNullableImports") == old(count("writeNullableImports"))
+//@   ensures imports_used: count("writeNullableImports") > old(count("writeNullableImports")) ==> count("P:json.") > old(count("P:json.")) && count("P:protojson.") > old(count("P:protojson."))
+//@   loop 1 invariant count("P:json.") >= old(count("P:json.")) && count("P:protojson.") >= old(count("P:protojson.")) && (_i1 > 0 ==> count("P:json.") > old(count("P:json.")) && count("P:protojson.") > old(count("P:protojson.")))
 
 //@ func (g *Generator) generateEmptyBehaviorEncodingFile(file *protogen.File) (err error)
 //@   modifies *
@@ -231,7 +235,11 @@ package httpgen
 //@   ensures one_route_per_rpc: err == nil ==> count("P:config.mux.Handle(") == old(count("P:config.mux.Handle(")) + len(service.Methods)
 
 //@ func (g *Generator) generateFlattenFile(file *protogen.File) (err error)
+//@   modifies *
 //@   ensures err == nil ==> spec.AllOK_flatten(file.Messages)
+//@   at-call writeFlattenImports requires once: count("writeFlattenImports") == old(count("writeFlattenImports"))
+//@   ensures imports_used: count("writeFlattenImports") > old(count("writeFlattenImports")) ==> count("P:json.") > old(count("P:json.")) && count("P:protojson.") > old(count("P:protojson."))
+//@   loop 1 invariant count("P:json.") >= old(count("P:json.")) && count("P:protojson.") >= old(count("P:protojson.")) && (_i1 > 0 ==> count("P:json.") > old(count("P:json.")) && count("P:protojson.") > old(count("P:protojson.")))
 
 //@ func (g *Generator) generateOneofDiscriminatorFile(file *protogen.File) (err error)
 //@   modifies *
@@ -498,3 +506,35 @@ package httpgen
 //@   loop 1 invariant needsHex <==> (exists k int, j int :: 0 <= k && k < _i1 && 0 <= j && j < len(contexts[k].BytesFields) && contexts[k].BytesFields[j].Encoding == sebufhttp.BytesEncoding_BYTES_ENCODING_HEX)
 //@   loop 2 invariant needsBase64 <==> ((exists k int, j int :: 0 <= k && k < _i1 && 0 <= j && j < len(contexts[k].BytesFields) && spec.codedBytes(contexts[k].BytesFields[j].Encoding)) || (exists j int :: 0 <= j && j < _i2 && spec.codedBytes(ctx.BytesFields[j].Encoding)))
 //@   loop 2 invariant needsHex <==> ((exists k int, j int :: 0 <= k && k < _i1 && 0 <= j && j < len(contexts[k].BytesFields) && contexts[k].BytesFields[j].Encoding == sebufhttp.BytesEncoding_BYTES_ENCODING_HEX) || (exists j int :: 0 <= j && j < _i2 && ctx.BytesFields[j].Encoding == sebufhttp.BytesEncoding_BYTES_ENCODING_HEX))
+
+// ---- enum, nullable and flatten codec files: every package the file imports is used by the methods emitted for each
+// context, and the file is written only when there is a context (C13) ----
+//@ func (g *Generator) generateEnumMarshalJSON(gf *protogen.GeneratedFile, enum *protogen.Enum)
+//@   modifies *
+//@   ensures uses_json: count("P:json.") > old(count("P:json."))
+//@   ensures monotone: count("P:fmt.") >= old(count("P:fmt.")) && count("P:json.") >= old(count("P:json."))
+//@ func (g *Generator) generateEnumUnmarshalJSON(gf *protogen.GeneratedFile, enum *protogen.Enum)
+//@   modifies *
+//@   ensures uses_fmt_and_json: count("P:fmt.") > old(count("P:fmt.")) && count("P:json.") > old(count("P:json."))
+//@ func (g *Generator) generateEnumLookupMaps(gf *protogen.GeneratedFile, enum *protogen.Enum)
+//@   modifies *
+//@   ensures monotone: count("P:fmt.") >= old(count("P:fmt.")) && count("P:json.") >= old(count("P:json."))
+//@ func (g *Generator) generateEnumEncodingFile(file *protogen.File) (err error)
+//@   modifies *
+//@   at-call writeEnumEncodingImports requires once: count("writeEnumEncodingImports") == old(count("writeEnumEncodingImports"))
+//@   ensures imports_used: count("writeEnumEncodingImports") > old(count("writeEnumEncodingImports")) ==> count("P:fmt.") > old(count("P:fmt.")) && count("P:json.") > old(count("P:json."))
+//@   loop 1 invariant count("P:fmt.") >= old(count("P:fmt.")) && count("P:json.") >= old(count("P:json.")) && (_i1 > 0 ==> count("P:fmt.") > old(count("P:fmt.")) && count("P:json.") > old(count("P:json.")))
+
+//@ func (g *Generator) generateNullableMarshalJSON(gf *protogen.GeneratedFile, ctx *NullableContext)
+//@   modifies *
+//@   ensures uses_json_and_protojson: count("P:json.") > old(count("P:json.")) && count("P:protojson.") > old(count("P:protojson."))
+//@ func (g *Generator) generateNullableUnmarshalJSON(gf *protogen.GeneratedFile, ctx *NullableContext)
+//@   modifies *
+//@   ensures monotone: count("P:json.") >= old(count("P:json.")) && count("P:protojson.") >= old(count("P:protojson."))
+
+//@ func (g *Generator) generateFlattenMarshalJSON(gf *protogen.GeneratedFile, ctx *FlattenContext)
+//@   modifies *
+//@   ensures uses_json_and_protojson: count("P:json.") > old(count("P:json.")) && count("P:protojson.") > old(count("P:protojson."))
+//@ func (g *Generator) generateFlattenUnmarshalJSON(gf *protogen.GeneratedFile, ctx *FlattenContext)
+//@   modifies *
+//@   ensures monotone: count("P:json.") >= old(count("P:json.")) && count("P:protojson.") >= old(count("P:protojson."))
